@@ -236,11 +236,16 @@ func toBits(bitDefintions []*meta.Bit, v interface{}) (val.Bits, error) {
 	switch x := v.(type) {
 	case []string: // labels only
 		for _, strBit := range x {
+			found := false
 			for _, bitDef := range bitDefintions {
 				if strBit == bitDef.Ident() {
 					result.Labels = append(result.Labels, strBit)
 					result.Positions = result.Positions | (1 << bitDef.Position)
+					found = true
 				}
+			}
+			if !found && strBit != "" {
+				return val.Bits{}, fmt.Errorf("'%s' is not a declared bit", strBit)
 			}
 		}
 		return result, nil
@@ -250,6 +255,9 @@ func toBits(bitDefintions []*meta.Bit, v interface{}) (val.Bits, error) {
 				result.Positions = result.Positions | (1 << bitDef.Position)
 				result.Labels = append(result.Labels, bitDef.Ident())
 			}
+		}
+		if x != result.Positions {
+			return val.Bits{}, fmt.Errorf("%#x has bits set that are not declared", x)
 		}
 		return result, nil
 	case string: // treat string as list of bit identifiers separated by space
